@@ -261,6 +261,11 @@ def record_r3(seed, count, nmax):
             cps = det.predict(Xin)["ilocs"].to_numpy()
         except RuntimeError:
             continue  # documented error: slice covariance not positive definite
+        except Exception as e:   # the implementation raises on a valid call: a verdict, not a crash of the check
+            out.append({"id": f"r3-{seed}-{i}", "error": f"{type(e).__name__}: {e}"[:300], "n": n, "p": p, "m": m, "cost": name,
+                        "after_touch_on_same_index": touched, "X": X.tolist()})
+            i += 1
+            continue
         scores = ts if touched else det.scores.to_numpy()
         vals = list(C.values()) + [det.penalty_] + [float(x) for x in scores[m - 1:]]
         if not all(math.isfinite(v) for v in vals):
@@ -385,6 +390,10 @@ def run(tier: str) -> int:
                [("long", chk.seed + 200 + k, 1 if tier == "quick" else 12, 0) for k in range(8)]
         with ProcessPoolExecutor(max_workers=stages.NCPU) as ex:
             traces = [t for part in ex.map(_rec, jobs) for t in part]
+        for t in [t for t in traces if "error" in t]:
+            chk.case(t)
+            chk.violation({"stage": "C", "trace": t}, "raises", {"detector": "PELT", "clause": "raises", "error": t["error"][:60]})
+        traces = [t for t in traces if "error" not in t]
         verdicts = stages.validate_traces(chk, "Trace_Pelt", [t for t in traces if t["n"] <= 40], wd=wd, label="C:pelt", batch=250)
         verdicts.update(stages.validate_traces(chk, "Trace_Pelt", [t for t in traces if t["n"] > 40], wd=wd, label="C:pelt-long", batch=4))
         for tr in traces:
